@@ -10,8 +10,10 @@ import (
 	"sort"
 	"strings"
 	"sync"
+	"time"
 
 	"github.com/gookit/rux"
+	"github.com/gookit/rux/pkg/handlers"
 )
 
 // Shape is a router shape.
@@ -47,7 +49,7 @@ func (q Req) String() string { return q.Method + " " + q.Path }
 var Kinds = []Req{
 	{"GET", "/a"}, {"GET", "/b"}, {"GET", "/u/1"}, {"GET", "/u/2"}, {"GET", "/k/y"},
 	{"GET", "/zz/q"}, {"POST", "/a"}, {"HEAD", "/u/1"}, {"POST", "/u/1"}, {"GET", "/g/s"}, {"POST", "/k/y"}, {"GET", "/cp/7"},
-	{"GET", "/redir"},
+	{"GET", "/redir"}, {"GET", "/to/1"},
 }
 
 // kept holds, per request, the Copy() of the context its handler kept beyond the request
@@ -144,6 +146,9 @@ func Build(s Shape) *rux.Router {
 		c.WriteString("[CP " + c.Param("id") + "]")
 		Yield()
 	})
+	// a route behind the Timeout middleware whose deadline has already passed (no wall-clock dependence): the handler
+	// still runs to completion on the request's own goroutine
+	r.GET("/to/{id}", main("TO"), handlers.Timeout(-time.Second))
 	route("/boom", "BOOM", "GET")
 	r.GET("/boom/now", func(c *rux.Context) { panic("boom") })
 	r.GET("/redir", func(c *rux.Context) {
